@@ -16,7 +16,7 @@ theorem bufList_of_hb0 {s0 : Sys} (hb0 : s0.buf.hot.stored = [] ∧ s0.buf.hot.s
   obtain ⟨h1, h2, h3, h4⟩ := hb0
   simp [bufList, h1, h2, h3, h4]
 
-/-! ### `_max_resource_provision` and `provision_batch_resources(0, …)` -/
+/-! ### `_max_resource_provision` -/
 
 theorem maxResourceProvision_bounds (c : Cluster) (parts : Nat) (split : Option (List (Oid × Nat × Nat)))
     (o : Oid) (n : Nat) (h : Alg.maxResourceProvision c parts split o = .ok n) :
@@ -61,14 +61,6 @@ theorem maxResourceProvision_bounds (c : Cluster) (parts : Nat) (split : Option 
             refine ⟨by omega, fun e => by simp at e, fun sp' e => ?_⟩
             injection e with e; subst e
             exact ⟨lo, hi, hg, by omega, Or.inr (by omega)⟩
-
-theorem provisionBatch_zero_idle (c c' : Cluster) (o : Oid) (h : c.provisionBatch 0 o = (c', none)) :
-    c'.idle = c.idle := by
-  unfold provisionBatch at h
-  simp only [Nat.not_lt_zero, gt_iff_lt, false_and, if_false, List.take_zero, Cluster.addIdleAll] at h
-  injection h with h _
-  subst h
-  rfl
 
 /-! ### reservations only appear in a block of `allocate_tasks` that provisions -/
 
@@ -157,17 +149,9 @@ theorem resume_new_reservation {s0 s : Sys} (hw : WFConfig s0) (hbuf : bufList s
               · rw [e] at hyes; exact hyes
               · rw [e] at hyes; exact hasRes_of_release hyes
               · rw [e] at hyes; exact hasRes_of_release (hasRes_of_release hyes)
-            rcases h1 with e | ⟨hnp, hlt, n, hmn, hmax, hpb⟩
+            rcases h1 with e | ⟨hnp, hlt, n, hn1, hmn, hmax, hpb⟩
             · rw [e] at hback; exact absurd hback hnot
             · obtain ⟨hnav, _, _⟩ := maxResourceProvision_bounds s.cl parts split o n hmax
-              have hn1 : 1 ≤ n := by
-                cases n with
-                | zero =>
-                  exfalso
-                  obtain ⟨l, hl⟩ := hback
-                  rw [provisionBatch_zero_idle s.cl c1 o hpb] at hl
-                  exact hnot ⟨l, hl⟩
-                | succ k => omega
               obtain ⟨t1, t2, t3⟩ := provisionBatch_takes s.cl c1 n o hnp (Inv.avail_nodup hU.inv) hn1 hnav hpb
               -- the reservation is not released in the same block (it would be gone)
               have hX : (s.block p orc).1.cl = c1 := by
@@ -386,7 +370,7 @@ theorem resume_release {s0 s : Sys} (hw : WFConfig s0) (hbuf : bufList s0.buf = 
   -- the cluster after the (possibly new) reservation: a reservation of `o` has an idle machine
   have hc1 : KeyNE c1 ∧ (dictKeys c1.idle).Nodup ∧ c1.runOn = s.cl.runOn ∧
       (∀ m ∈ s.cl.idleOf (some o), m ∈ c1.idleOf (some o) ∨ m ∈ c1.available) := by
-    rcases g1 with e | ⟨hnp, _, n, _, _, hpb⟩
+    rcases g1 with e | ⟨hnp, _, n, _, _, _, hpb⟩
     · subst e; exact ⟨hri.keyNE, hU.inv.keys, rfl, fun m hm => Or.inl hm⟩
     · have hok1 : (s.cl.provisionBatch n o).2 = none := by rw [hpb]
       obtain ⟨a1, a2, _⟩ := provisionBatch_key s.cl n o hri.keyNE hok1
